@@ -143,7 +143,7 @@ def run(ctx):
             cases.append(c)
         c01.run_exhaustive(ctx, 'tree', cases, 'eonverif.props.c02', 'tree_prop')
     if not only or 'walk' in only:
-        run_hypothesis(ctx, 'walk', c01.walk_case(sis=True), prop_walk, 250 if quick else 5000,
+        run_hypothesis(ctx, 'walk', c01.walk_case(sis=True), prop_walk, 600 if quick else 5000,
                        min_class_fraction={'reinfection': 0.05})
     if not only or 'mc' in only:
         mc.run_mc(ctx, 'mc', mc_configs(['fast_SIS', 'Gillespie_SIS'], thorough=not quick), 64000 if quick else 1000000)
